@@ -39,7 +39,9 @@ Elem(t) == t.of[1]
 
 \* the string universe of the bounded model and which of its members parse as numbers
 IntStrings   == {"12", "-3", "7"}
-FloatStrings == IntStrings \cup {"1.5", "1e3"}
+\* ("float-parsable" is the host language's float syntax, which allows digit-separating underscores:
+\* "1_000" is a Float string although it is no Int string; "0x1F" is neither)
+FloatStrings == IntStrings \cup {"1.5", "1e3", "1_000"}
 \* the values of enum E in the schema at hand; the switch SCHEMA2 (carried in Devs with the
 \* deviations, it is a configuration, not a deviation) selects a second schema with the same
 \* type names in which E has one value only
